@@ -224,7 +224,7 @@ theorem C12_crash_safe (s s' : St) (a : Act) (hs : Snap.step s a = some s') :
     commands that do not write one do not change the table (histories without restart; a
     restart re-reads the file, which is C11). -/
 def NoRestart : Cmd → Prop
-  | .restart => False
+  | .restart _ => False
   | _ => True
 
 theorem C12_file_current_step (c : Core) (cmd : Cmd) (hn : NoRestart cmd) (hf : C06.FileCurrent c) :
@@ -262,7 +262,7 @@ theorem C12_file_current_step (c : Core) (cmd : Cmd) (hn : NoRestart cmd) (hf : 
                    · exact hf
                    · exact hsave _
   | remove name => simp only [stepCore]; exact hws _ _ fun _ => hsave _
-  | restart => exact absurd hn (by simp [NoRestart])
+  | restart good => exact absurd hn (by simp [NoRestart])
 
 theorem C12_file_current (cmds : List Cmd) (hn : ∀ c ∈ cmds, NoRestart c) : C06.FileCurrent (runCore cmds) := by
   unfold runCore
